@@ -352,3 +352,60 @@ def body_build_unsupported(i: int) -> int:
             return 23
         n += 1
     return 0
+
+
+# ------------------------------------------------------------------ converters reached for the first time by the diagnostic pass
+
+class Cfg(PaneBase, in_format=('struct', 'tuple')):
+    x: int = 0
+    y: t.Optional[str] = field(default=None, aliases=('why',))
+
+
+FRESH_TYPES = (t.Tuple[int, Cfg], {'k': int, 'p': Cfg}, t.Dict[str, Cfg], t.List[Cfg], t.Union[int, Cfg], t.Tuple[Cfg, Cfg])
+
+
+def fresh_value(ti, first_bad, sk, i):
+    """values whose FIRST member fails so that a later member's converter is reached by collect_errors before any try_convert"""
+    bad = 'oops' if sk == 0 else ([1] if sk == 1 else None)
+    cfg = {'x': i} if sk != 2 else {'x': 'bad', 'zz': 1}
+    a = bad if first_bad else 1
+    if ti == 0:
+        return [a, cfg]
+    elif ti == 1:
+        return {'k': a, 'p': cfg}
+    elif ti == 2:
+        return {'a': {'x': bad}, 'b': cfg}
+    elif ti == 3:
+        return [{'x': bad}, cfg]
+    elif ti == 4:
+        return cfg if not first_bad else {'x': bad}
+    else:
+        return [{'x': bad} if first_bad else cfg, cfg]
+
+
+@obligation(pre="0 <= ti <= 5 and 0 <= sk <= 2", witnesses=(0, -1), timeout=240)
+def body_fresh_converters(ti: int, first_bad: bool, sk: int, i: int) -> int:
+    """a converter built for this very call (mapping-form custom= makes a fresh handler set, hence fresh converters) may be reached first by the diagnostic pass: still only ConvertError"""
+    n = 0
+    ty = FRESH_TYPES[0]
+    for x in FRESH_TYPES:
+        if n == ti:
+            ty = x
+        n += 1
+    v = fresh_value(ti, first_bad, sk, i)
+    try:
+        pane.from_data(v, ty, custom={})
+    except ConvertError:
+        return -1
+    except Exception as e:
+        return classify(e)
+    return 0
+
+
+for _ti in range(6):
+    for _fb in (False, True):
+        for _sk in range(3):
+            try:
+                body_fresh_converters(_ti, _fb, _sk, 1)
+            except Exception:
+                pass
